@@ -386,6 +386,8 @@ package godi
 //@        (callret("atomic.Load:disposed", ncalls("atomic.Load:disposed") - 1, 0, "int32") != 0 ==> result0 == nil && result1 == ErrScopeDisposed)
 //@        && (callret("atomic.Load:disposed", ncalls("atomic.Load:disposed") - 1, 0, "int32") == 0 ==> result0 == callret("scope.construct", 0, 0) && result1 == nil)
 //@   ensures[C15] error_means_no_value: result1 != nil ==> result0 == nil
+// a resolution that waited for a construction is a resolution whose construction overlaps Close, like the constructing one (C13)
+//@   at before return#5 : assert[C13] a_waiter_overlapping_close_reports_the_disposed_error: ncalls("atomic.Load:disposed") >= 1 && callret("atomic.Load:disposed", ncalls("atomic.Load:disposed") - 1, 0, "int32") == 0
 // every announcement made by this call is withdrawn again by this call: by construct, or by release when the cache had the instance meanwhile
 //@   ensures[C02,C15] every_announcement_is_withdrawn: ncalls("scope.release") + ncalls("scope.construct") <= 1
 //@   at before call s.creatingMu.Unlock#1 : assert[C02] construction_is_announced_under_the_lock_before_it_runs: s.creating != nil && (id in s.creating) && s.creating[id] == call && !busy && ncalls("scope.construct") == 0 && ncalls("scope.release") == 0
@@ -666,6 +668,9 @@ package godi
 //@   ensures[C02,C08,C18] initializer_phase_always_runs: ncalls("provider.voidReturnScopedDescriptorsMu.RLock") == 1 && callarg("provider.voidReturnScopedDescriptorsMu.RLock", 0, 0) == old(s.rootProvider)
 //@   ensures[C02] initializers_once_in_order: result == nil ==> ncalls("scope.createInstance") == len(inits)
 //@        && (forall i int :: 0 <= i && i < len(inits) ==> callarg("scope.createInstance", i, 0) == s && callarg("scope.createInstance", i, 1) == inits[i])
+// C02 'initializer functions that return nothing run exactly once, when the scope is created': an initializer that another initializer has
+// already pulled in through its marker must not be run again, so the loop goes through the scope's cache (resolve), never straight to createInstance
+//@   ensures[C02] each_initializer_runs_exactly_once: ncalls("scope.createInstance") == 0
 //@   ensures[C15] init_failure_is_classifiable: result != nil ==> typeis(result, "*ResolutionError") && ncalls("scope.createInstance") >= 1
 //@        && wraps(as(result, "*ResolutionError").Cause, callret("scope.createInstance", ncalls("scope.createInstance") - 1, 1))
 //@   ensures[C10,C14] failed_creation_is_cleaned_up: result != nil ==> ncalls("scope.Close") == 1 && callarg("scope.Close", 0, 0, "*scope") == s
